@@ -2052,6 +2052,8 @@ func init() {
 			"dtypes":  "all 16 dtypes with a Go kind the formats know (bool, ints, uints, floats, complex, string); a refusal (error) is accepted, a stream that reads back differently or cannot be read back is a violation",
 			"outside": "sparse tensors (sparse_io.go has no encoder), interoperability with real NumPy / protobuf / flatbuffers readers (only self round trips), csv formats other than %v, I/O errors of the underlying writer/reader",
 		},
+		Assume: []string{"encoding/gob and encoding/csv transport what they are given without loss (FIFO models)", "strconv.Parse*(fmt %v of x) == x for every numeric element type (uninterpreted injective string; NaN payloads not compared)",
+			"encoding/binary little-endian layout of fixed-size values (model); int/uint are rejected as not fixed-size, as the real package does", "regexp / strings / strconv on the concrete npy header are called natively"},
 		Instances: func(tier string, seed int64) []Instance {
 			var out []Instance
 			thorough := tier == "thorough"
